@@ -312,3 +312,6 @@ def run(tier, seed):
              "labelled_dominance_relations_realised": {k[5:]: v for k, v in sorted(realised.items())},
              "labelled_posets_reference": posets}
     return col, extra
+
+
+RULE += (" A sorted population whose members are copied (IndividualNSGAII.copy, IndividualSwarm.copy, deepcopy) and sorted again with 0..2 newcomers: second ranking correct and the first population's ranks untouched; selectors built with constructor options (dominance=EpsilonDominance, epsilons lists) over V3^2 x F, n<=4.")
